@@ -275,6 +275,40 @@ def exception_case(ctx, seed):
         ctx.case(('exception', seed, kind, tuple(calls)), nontrivial=True)
 
 
+def async_live_reads(ctx):
+    """A recording in progress on the asynchronous cassette is read back by the service (get_data / recording[key]) and the value it
+    got is modified: later reads of the live recording and what is finally stored still show what was recorded."""
+    from vlib.cassettes import async_over
+    from vlib.values import Obj
+    for kind in ('memory', 'file', 's3'):
+        with open_box(kind) as box:
+            a = async_over(box.cassette)
+            rec = a.create_new_recording('Cat')
+            original = {'rows': [1, 2, {'k': [3]}], 'totals': {'sum': 3}, 'obj': Obj(items=[4])}
+            model = fresh(original)
+            rec.set_data('k', original)
+            w = {'async_live_reads': True, 'cassette': kind}
+            ctx.case(w)
+            ctx.count('live_reads_on_the_asynchronous_cassette')
+            v1 = rec.get_data('k')
+            mutate_deep(v1)
+            v2 = rec['k'] if kind != 'file' else rec.get_data('k')
+            if not teq(v2, model) or shares_mutable(v1, v2):
+                ctx.violation('a second read of a live recording on the asynchronous cassette observes the mutation applied to the first result', w)
+            mutate_deep(v2)
+            rec.add_metadata({'m': [1]})
+            a.save_recording(rec)
+            a.close()
+            try:
+                stored = box.reader().get_recording(rec.id).get_data('k')
+            except Exception as ex:
+                ctx.violation('recording saved through the asynchronous cassette not readable: %s' % type(ex).__name__, w)
+                continue
+            # (the ORIGINAL object was handed over by reference and never modified: what is stored is what was recorded)
+            if not teq(stored, model):
+                ctx.violation('what the asynchronous cassette stored was altered through a value handed out by a live read', dict(w, stored=repr(stored)[:200]))
+
+
 def overlapping_fetches(ctx):
     """Two threads fetch the SAME recording through ONE cassette object at the same time (a replay pool sharing its cassette): on S3 the
     first download is stalled until the second request is under way. The two fetched recordings are independent object graphs."""
@@ -625,6 +659,7 @@ def run(ctx):
     concurrent_reads(ctx)
     if ctx.shard == 0:
         overlapping_fetches(ctx)
+        async_live_reads(ctx)
     if not ctx.quick and ctx.shard == 0:
         from vlib.repo_tests import run_under_monitors
         res, tail = run_under_monitors()
@@ -641,6 +676,8 @@ def run(ctx):
 
 
 def replay(ctx, w):
+    if w.get('async_live_reads'):
+        return async_live_reads(ctx)
     if w.get('overlapping_fetches'):
         return overlapping_fetches(ctx)
     s = w['case_seed']
